@@ -138,6 +138,12 @@ def equalFold (a b : Str) : Bool := Str.toLowerAscii a == Str.toLowerAscii b
 def itoa (n : Int) : Str :=
   if n < 0 then (45 : UInt8) :: Str.ofNat n.natAbs else Str.ofNat n.toNat
 
+/-- `strconv.ParseBool`: accepts 1, t, T, TRUE, true, True, 0, f, F, FALSE, false, False; any other value is an error (and false) -/
+def parseBool (s : Str) : Bool × Error :=
+  if s == B "1" || s == B "t" || s == B "T" || s == B "TRUE" || s == B "true" || s == B "True" then (true, {})
+  else if s == B "0" || s == B "f" || s == B "F" || s == B "FALSE" || s == B "false" || s == B "False" then (false, {})
+  else (false, { isNil := false })
+
 /-- Go `map[string]string`: unique keys, insertion order -/
 abbrev Map := List (Str × Str)
 
